@@ -258,6 +258,9 @@ func (x *Exec) call(in ssa.Instruction, c *ssa.CallCommon, res ssa.Value) {
 			// unknown callee: havoc everything
 			e.note("%s: call to %s has no contract: all state havoced", x.name, key)
 			x.havocAll(passedRefs(args)...)
+			if x.fc != nil {
+				x.callerFrame(assignItem{key: "*", mode: "any"}, binders, pre, c)
+			}
 		}
 	} else {
 		cenv := &Env{x: x, st: x.st, old: x.st, binders: binders, bound: map[string]Val{}, closed: true}
@@ -499,6 +502,14 @@ func (x *Exec) applyAssigns(fc *FuncContract, binders map[string]Val, pre *State
 			for k, v := range keep {
 				x.st.H[k] = v
 			}
+			// caller frame: a callee that may modify everything needs a caller
+			// that may too (and that promises to preserve no more than the callee)
+			if x.fc != nil {
+				for k := range keep {
+					it.preserves = append(it.preserves, k)
+				}
+				x.callerFrame(it, binders, pre, c)
+			}
 			return
 		}
 		if it.key == "brk" {
@@ -569,6 +580,25 @@ func (x *Exec) applyAssigns(fc *FuncContract, binders map[string]Val, pre *State
 }
 
 func (x *Exec) callerFrame(it assignItem, binders map[string]Val, pre *State, c *ssa.CallCommon) {
+	if pres := x.preservedKeys(); len(pres) > 0 {
+		// the caller assigns everything EXCEPT what it promises to preserve
+		if it.key == "*" {
+			have := map[string]bool{}
+			for _, k := range it.preserves {
+				have[k] = true
+			}
+			for k := range pres {
+				if !have[k] {
+					x.oblige("frame", "call-preserves-"+k, x.frameTags(), len(x.frameTags()) == 0, "false", "callee may modify everything but the caller promises to preserve "+k, x.pos(c.Pos()))
+				}
+			}
+			return
+		}
+		if pres[it.key] && it.mode != "new" {
+			x.oblige("frame", "call-preserves-"+it.key, x.frameTags(), len(x.frameTags()) == 0, "false", "callee modifies "+it.key+" which the caller promises to preserve", x.pos(c.Pos()))
+			return
+		}
+	}
 	if strings.HasPrefix(it.key, "G:") {
 		for _, a := range x.fc.Assigns {
 			if x.assignKey(a).key == it.key || x.assignKey(a).key == "*" {
